@@ -380,17 +380,17 @@ func runC18(c *lib.Ctx) {
 	nSweep := len(text) + len(native) + len(ops) + len(simple)
 	// composite, seeded
 	r.g.text = true
-	for i := 0; i < c.Scale(300, 25000); i++ {
+	for i := 0; i < c.Scale(300, 40000); i++ {
 		text = append(text, r.randomTextCase())
 	}
 	r.g.text = false
-	for i := 0; i < c.Scale(500, 80000); i++ {
+	for i := 0; i < c.Scale(500, 150000); i++ {
 		native = append(native, &c18Case{Family: "native", Doc: strings.Join(r.g.doc(5).wire(), " "), Via: r.g.r.Intn(6)})
 	}
-	for i := 0; i < c.Scale(2500, 300000); i++ {
+	for i := 0; i < c.Scale(2500, 600000); i++ {
 		ops = append(ops, &c18Case{Family: "ops", Doc: strings.Join(r.g.container(1+r.g.r.Intn(5)).wire(), " "), Via: r.g.r.Intn(3)})
 	}
-	for i := 0; i < c.Scale(2000, 200000); i++ {
+	for i := 0; i < c.Scale(2000, 400000); i++ {
 		simple = append(simple, &c18Case{Family: "simplify", GoVal: strings.Join(r.g.goValue(3).wire(), " ")})
 	}
 	r.runText(text)
